@@ -24,7 +24,7 @@ PY = sys.executable
 
 TIERS = {
     'C16': {'quick': {'runs': 2400, 'det': 48, 'sweeps': 28, 'matrix': 13, 'conflict': 6, 'max_seconds': 700},
-            'thorough': {'runs': 60000, 'det': 512, 'sweeps': 400, 'matrix': 338, 'conflict': 160, 'max_seconds': 5000}},
+            'thorough': {'runs': 60000, 'det': 512, 'sweeps': 400, 'matrix': 169, 'conflict': 80, 'max_seconds': 5000}},
     'C17': {'quick': {'runs': 6000, 'det': 48, 'fresh': 48, 'max_seconds': 700},
             'thorough': {'runs': 150000, 'det': 512, 'fresh': 300, 'max_seconds': 5000}},
 }
@@ -522,7 +522,9 @@ def main(argv=None):
                 if j < nk0:
                     return j / max(1, nk0)
                 if j < nk0 + nm0:
-                    return (j - nk0) / max(1, nm0)
+                    # (thorough: the matrix is scheduled within the first third of the batch, so that a wall
+                    # budget that cuts the batch short still leaves all 169 ordered pairs swept)
+                    return (j - nk0) / max(1, nm0) * (0.3 if tier == 'thorough' else 1.0)
                 return (j - nk0 - nm0) / max(1, nc0)
             sweep_tasks.sort(key=lambda t: (frac(t[0]), t[0], t[1]))
         # the first 48 chunks first (they carry the runs the determinism self-test repeats), then sampled runs
